@@ -212,6 +212,9 @@ func (f *FieldCopyFromGenerator) genObject() *j.Statement {
 					}
 
 					m.GenerateFields(g)
+				} else if f.IsNullable {
+					// A message without fields still has to be allocated when the attribute is set
+					g.Id(objFieldName).Op("=&").Id(f.i.WithType(f.GoElemTypeIndirect)).Values()
 				}
 			})
 		} else {
